@@ -113,6 +113,7 @@ struct TxRec {
     publish_returned: bool,
     description: String,
     restore: bool,
+    still_visible_gone: Vec<CommitId>,
 }
 
 #[derive(Default)]
@@ -1749,6 +1750,21 @@ impl RepoSim {
         if !rec.restore {
             Self::check_c11(shared, sim, tx.repo(), &rec, &auto, &options);
         }
+        // Rewritten/abandoned commits that are still visible in this very
+        // transaction's result (they sit below a divergently rewritten commit,
+        // whose children jj does not rebase): this side never hid them, so
+        // the reconciled repository need not hide them either (C13).
+        rec.still_visible_gone = sched::without_hooks(|| {
+            let heads: Vec<CommitId> = tx.repo().view().heads().iter().cloned().collect();
+            let vis = Graph::load(tx.repo().store(), heads.clone()).ancestors(&heads);
+            rec.rewritten
+                .iter()
+                .map(|(o, _, _)| o)
+                .chain(rec.abandoned.iter().map(|(o, _)| o))
+                .filter(|o| vis.contains(*o))
+                .cloned()
+                .collect()
+        });
         // --- write, register intent, publish
         let desc = format!("tx {uniq}");
         rec.description = desc.clone();
@@ -2487,8 +2503,18 @@ impl RepoSim {
             // complete also against the predecessors stored in the commit
             // objects themselves (covers jj's own reconcile rewrites)
             let mut known_gap = false;
-            for w in &want2 {
-                if !listed.contains(w) {
+            // judge the frontier of what is missing first: a missing commit that
+            // a *listed* commit names directly as its predecessor (every gap
+            // has one, because the walk starts at `v` itself)
+            let direct_preds_of_listed: BTreeSet<CommitId> = listed
+                .iter()
+                .filter_map(|l| repo.store().get_commit(l).ok())
+                .flat_map(|c| c.store_commit().predecessors.clone())
+                .collect();
+            let mut missing: Vec<&CommitId> = want2.iter().filter(|w| !listed.contains(*w)).collect();
+            missing.sort_by_key(|w| !direct_preds_of_listed.contains(*w));
+            for w in missing {
+                {
                     if std::env::var_os("JJSIM_DEBUG_C46").is_some() {
                         for c in &visible {
                             let cm = repo.store().get_commit(c).unwrap();
@@ -2674,8 +2700,9 @@ impl RepoSim {
             }
         }
         let exempt = g.ancestors(&exempt_roots);
+        let never_hidden: HashSet<CommitId> = published.iter().flat_map(|t| t.still_visible_gone.iter().cloned()).collect();
         for (old, (by, ch)) in &gone_commits {
-            if exempt.contains(old) {
+            if exempt.contains(old) || never_hidden.contains(old) {
                 model.probe("c13_gone_check_skipped_divergent");
                 continue;
             }
